@@ -30,7 +30,21 @@ CHECKS = {
  'C05': ('other', 'PARTIAL. Proved: baked matrix zero off the visible list; A_i F\'_ij = A_j F\'_ji by construction; contour integrator non-negative, symmetric in the two patches (A_i F_ij = A_j F_ji exactly), translation invariant, invariant under axis permutations and mirrorings. Measured: 0 <= F <= 1, closure <= 2.5 %, rotation/scaling invariance (exact only outside the per-axis 1e-3 cut-off band of the code). Tie: real stokes_integration / Boole rule / boundary sampling vs the model.', '5 C05 and 8', 'algebraic law proofs (Lean 4) + differential tie + measured envelope'),
  'C06': ('other', 'PARTIAL - the main clause (accuracy within 1/3/8/5 % of the exact integral over a continuous envelope) is an analytic error bound out of reach of this technique here; it is MEASURED against an independent graded Gauss-Legendre contour reference (validated on closed forms every run) with exactly the tolerances of the statement. Proved (structure only): Boole rule exact to degree 5 with the generated weights, closed equispaced boundary sampling, integrator branch = Nusselt iff a vertex pair is closer than 1e-6, symmetry of the contour sum. Known finding D12 (obtuse shared-edge angles).', '5 C06 and 8', 'structural proofs (Lean 4) + differential tie + measured envelope against an independent reference'),
  'C07': ('other', 'PARTIAL. Proved: full case analysis of _basic_visibility over an abstract membership test (blocked / seen from behind / coplanar), symmetry in the two points, scans = conjunction over all surfaces and symmetric, projection point on the line and in the plane and translation covariant, _rotation_matrix orthogonal and mapping the normal to +z. Not proved: exactness of the winding-number membership test for every convex polygon - tied flag for flag with the model and checked against an independent line-of-sight oracle on sampled general-position configurations and scenes with blockers.', '5 C07 and 8', 'decision-logic proofs (Lean 4) + differential tie + independent oracle'),
- 'C17': ('other', 'PARTIAL. Proved (kernel level): point-to-patch factor invariant under translations, scalings about the point and all linear isometries; contour form factor under translations, axis permutations and mirrorings; patch tiling translation covariant and vertex-order free; wall frame scale-free in normal and up; projection translation covariant; visibility symmetric. Measured on the implementation: the whole pipeline under translations, mirrorings, normal/up rescalings (1e-9) and axis permutations (bins and initial energies equal, curve within 0.5 % of the peak), patches matched by transformed centres.', '5 C17 and 8', 'kernel invariance proofs (Lean 4) + pipeline-level measured invariance'),
+ 'C17': ('other', 'PARTIAL (rotations measured). Proved (kernel level): point-to-patch factor invariant under translations, scalings about the point and all linear isometries; contour form factor under translations, axis permutations and mirrorings; patch tiling translation covariant and vertex-order free; wall frame scale-free in normal and up; projection translation covariant; visibility symmetric. Measured on the implementation: the whole pipeline under translations, mirrorings, normal/up rescalings (1e-9) and axis permutations (bins and initial energies equal, curve within 0.5 % of the peak), patches matched by transformed centres.', '5 C17 and 8', 'kernel invariance proofs (Lean 4) + pipeline-level measured invariance'),
+}
+
+# statements added after the first round: lifted to the whole modelled run (Model/Pipeline.lean: runPipeline)
+EXTRA = {
+ 'C01': ' Pipeline level: runPipeline_absorbing_wall_dark (a wall whose table is zero carries no energy at any order, for the composed run from the bare room description).',
+ 'C02': ' Pipeline level: runPipeline_prefix (a run with a shorter histogram is the exact prefix of the longer run).',
+ 'C03': ' Pipeline level: runPipeline_nonneg; the composed run (driver command `pipeline`) is compared with the real object end to end.',
+ 'C05': ' Known finding D16 (absolute per-axis cut-off of the contour integrator breaks rotation invariance for almost axis-parallel edges, <= 5e-4 relative) is evaluated and reported under its own signature.',
+ 'C07': ' Proved in addition: the winding-number membership test is exact for axis-parallel rectangles in coordinate planes (walls and patches of shoebox rooms): non-zero count iff x0 <= x < x1 and y0 - eta/2 <= y <= y1 + eta/2, either orientation, any starting corner; the 3-D test accepts the strict interior of the slab and rejects everything outside by more than eta (checked against the implementation on boundary points).',
+ 'C09': ' Pipeline level: runPipeline_reciprocity (source and receiver exchanged in the composed run from_polygon ... collect_energy_receiver_mono give the same mono curve, any order / length / attenuation, diffuse room, generic positions, no receiver wrap), via reciprocity_cond.',
+ 'C10': ' Pipeline level: runPipeline_att_antitone (larger attenuation never increases any bin of any patch histogram nor of the mono curve of the composed run).',
+ 'C15': ' Added: params_describe_etc (in every history the stored speed/resolution/duration are those of the stored histogram; defect D14 repaired by a fix: commit), translator fact for the store site; histories with exchange(recalculate=False) and with setters after the bake; known finding D15 (stale baked factors refuse the restore).',
+ 'C17': ' Pipeline level PROVED: runPipeline_translation (room, source and receiver moved by one vector: every output of the composed run is identical).',
+ 'C18': ' Added: shape-level life-cycle model (Model/ShapeLife.lean) tied by random call histories (shapes of every saved attribute and the accept/refuse outcome after every step); reachable_accepted_iff: a state reachable by ANY call history is accepted on restore iff it is neither partially set (D13) nor stale (D15); regular and default pipelines are accepted after every stage.',
 }
 
 NA = {}
@@ -41,6 +55,7 @@ def main():
         pid = p['id']
         if pid in CHECKS:
             cat, text, ref, tech = CHECKS[pid]
+            text = text + EXTRA.get(pid, '')
             checks.append({
                 'property_id': pid,
                 'quick_cmd': './check %s --tier quick' % pid,
